@@ -294,9 +294,12 @@ def replay(data):
     try:
         ys, extra = S().integrate(torch.tensor([[0.0]], dtype=torch.float64), ts, (0,))
         trials = [log[i:i + 3] for i in range(0, len(log), 3)]
-        cur_t, cur_y = ts[0], 0.0
+        cur_t, cur_y, cur_x = ts[0], 0.0, (0,)
         for k, (full, h1, h2) in enumerate(trials):
             a, b = full[0], full[1]
+            if full[3] != cur_x or h1[3] != cur_x: bad.append(f'trial {k} does not start from the current extra solver state: {full[3]} / {h1[3]} vs {cur_x}')
+            if full[2] != cur_y or h1[2] != cur_y: bad.append(f'trial {k} does not start from the current accepted state')
+            if h2[3] != (3 * k + 2,): bad.append(f'trial {k}: second half step does not continue the first')
             if abs(a - cur_t) > 1e-12: bad.append(f'trial {k} starts at {a}, current time {cur_t}')
             if not (ts[0] - 1e-12 <= a < b <= ts[-1] + 1e-12): bad.append(f'trial {k} [{a},{b}] outside horizon')
             if b - a < dtmin - 1e-12 and abs(b - ts[-1]) > 1e-12: bad.append(f'trial {k} shorter than dt_min')
@@ -308,7 +311,7 @@ def replay(data):
                 if accepted:
                     if e > 1 and (nb - na) > dtmin + 1e-12: bad.append(f'trial {k} accepted with error {e} > 1 above dt_min')
                     if trials[k + 1][0][2] != 3 * k + 3: bad.append(f'trial {k} accepted state is not the two-half-step one')
-                    cur_t, cur_y = b, 3 * k + 3
+                    cur_t, cur_y, cur_x = b, 3 * k + 3, (3 * k + 3,)
                 else:
                     if e <= 1: bad.append(f'trial {k} rejected with error {e} <= 1')
                     if abs(na - a) > 1e-12: bad.append(f'trial {k} rejected but time moved')
